@@ -27,15 +27,18 @@ Out(r) == [prompts |-> r.prompts, reports |-> r.reports, handled |-> r.handled]
 NextQueues(r) == {q, Append(q, r.pack)} \cup {SubSeq(q, k, Len(q)) : k \in 1..(Len(q) + 1)}
                  \cup {<<>>, <<r.pack>>}
 
+\* the per-id queues a call on pack `pack` may leave behind (ModernStep picks the right one)
+Cands(qq, pack) == {qq, [i \in Ids |-> <<>>]} \cup UNION {
+                     {[qq EXCEPT ![i] = s] : s \in {<<>>, Append(qq[i], pack)} \cup
+                         (IF qq[i] = <<>> THEN {}
+                          ELSE {<<Tail(qq[i])[j]>> \o RemoveAt(Tail(qq[i]), j) : j \in 1..(Len(qq[i]) - 1)})}
+                     : i \in Ids}
+
 TOp == /\ IsEv("op")
        /\ Rec.returned /\ ~Rec.panicked
        /\ mode' = mode /\ ver' = ver /\ UNCHANGED unused
        /\ IF mode = "modern"
-            THEN /\ \E qm2 \in {qm, [i \in Ids |-> <<>>]} \cup UNION {
-                                  {[qm EXCEPT ![i] = s] : s \in {<<>>, Append(qm[i], Rec.pack)} \cup
-                                      (IF qm[i] = <<>> THEN {}
-                                       ELSE {<<Tail(qm[i])[j]>> \o RemoveAt(Tail(qm[i]), j) : j \in 1..(Len(qm[i]) - 1)})}
-                                  : i \in Ids} :
+            THEN /\ \E qm2 \in Cands(qm, Rec.pack) :
                        ModernStep(qm, Op(Rec), Out(Rec), qm2) /\ qm' = qm2
                  /\ UNCHANGED <<q, decl>>
             ELSE /\ Rec.op # "remove"
@@ -43,6 +46,22 @@ TOp == /\ IsEv("op")
                        LegacyStep(mode, q, decl, Op(Rec), Out(Rec), q2, d2) /\ q' = q2 /\ decl' = d2
                  /\ UNCHANGED qm
 
-TNext == TReset \/ TOp
+(* {"ev":"par","a":<response call>,"b":<queue call>,"returned":bool,"prompts":[..],"reports":[..],"handled":bool}
+   two calls on a modern handler running at the same time on two goroutines (the response call is
+   held at its status event while the queue call is started): both must return and what was
+   written must be what the two calls write in one of the two orders. *)
+TPar == /\ IsEv("par") /\ mode = "modern" /\ Rec.returned
+        /\ mode' = mode /\ ver' = ver /\ UNCHANGED <<unused, q, decl>>
+        /\ \E pa, pb \in {<<>>} \cup {<<n>> : n \in PackNames} :
+              /\ (Rec.prompts = pa \o pb \/ Rec.prompts = pb \o pa)
+              /\ LET a == Op(Rec.a)  b == Op(Rec.b)
+                     oa == [prompts |-> pa, reports |-> Rec.reports, handled |-> Rec.handled]
+                     ob == [prompts |-> pb, reports |-> <<>>, handled |-> FALSE]
+                 IN \/ \E q1 \in Cands(qm, b.pack) : \E q2 \in Cands(q1, b.pack) :
+                          ModernStep(qm, a, oa, q1) /\ ModernStep(q1, b, ob, q2) /\ qm' = q2
+                    \/ \E q1 \in Cands(qm, b.pack) : \E q2 \in Cands(q1, b.pack) :
+                          ModernStep(qm, b, ob, q1) /\ ModernStep(q1, a, oa, q2) /\ qm' = q2
+
+TNext == TReset \/ TOp \/ TPar
 TSpec == TInit /\ [][TNext]_tv
 =============================================================================
